@@ -347,6 +347,16 @@ impl<'p> CoroutinePool<'p> {
         };
         #[cfg(feature = "verif")]
         crate::verif::point("wait:registered");
+        // the task may have finished, or the pool stopped, between the check above and the
+        // registration just made: whoever did that found no waiter to notify, so look again
+        if let Some(r) = self.try_take_task_result(task_id) {
+            self.notify(task_id);
+            return Ok(r);
+        }
+        if PoolState::Stopped == self.state() {
+            _ = self.waits.remove(&task_id);
+            return Ok(Err("The coroutine pool has stopped"));
+        }
         #[cfg(feature = "verif")]
         let wait_time = if crate::verif::is_virtual_driver() {
             if *arc.0.lock().expect("lock failed") {
